@@ -586,11 +586,11 @@ WeightFacts(wq) ==
       sum(k) == IF k = 0 THEN 0 ELSE wq[k] + sum(k - 1)
   IN <<mx, sum(n)>>
 
-AppendDmm(st, wq, cid) ==
+AppendDmm(st, mp, wq, cid) ==
   LET nm == DmmNm(st, cid)
       st1 == [st EXCEPT !.ch = Append(@, [nm |-> nm, cid |-> cid,
                                           sl |-> <<TSlot(-1, 0, AllMask(NQ(st)))>>,
-                                          eb |-> <<>>, wt |-> FALSE, mp |-> WeightFacts(wq),
+                                          eb |-> <<>>, wt |-> FALSE, mp |-> mp,
                                           wq |-> wq])]
   IN EnsureRef(st1, "ground-rydberg")
 
@@ -630,7 +630,8 @@ SetSlmDmm(st, cid, tg) ==
   IF chk # "ok" THEN Err(st, chk)
   ELSE
   LET n == PopCount(tg, NQ(st))
-      st1 == AppendDmm(st, [q \in 1..NQ(st) |-> IF HasBit(tg, q) THEN 2 ELSE 0], cid)
+      wq0 == [q \in 1..NQ(st) |-> IF HasBit(tg, q) THEN 2 ELSE 0]
+      st1 == AppendDmm(st, WeightFacts(wq0), wq0, cid)
       nm == LastOf(st1.ch).nm
       st2 == [st1 EXCEPT !.slmDmm = cid, !.slmNm = nm]
       tms == SlmTimes(st2)
@@ -649,14 +650,16 @@ EnterIsing(st) ==
   ELSE LET st1 == [st EXCEPT !.mode = "ising"] IN
        IF st.slmDmm # 0 THEN SetSlmDmm(st1, st.slmDmm, st.slmTg) ELSE Ok(st1)
 
-(* Sequence.config_detuning_map; wq = weight of every qubit in halves *)
-ConfigDetMap(st, wq, cid) ==
+(* Sequence.config_detuning_map; mp = <<2 * max, 2 * sum>> of the weights of the map's own traps, *)
+(* wq = weight of every qubit of the register in halves (the two differ when the map has traps    *)
+(* that carry no qubit)                                                                           *)
+ConfigDetMap(st, mp, wq, cid) ==
   IF Measured(st) THEN Err(st, "RE")
   ELSE LET chk == DmmChecks(st, cid) IN
   IF chk # "ok" THEN Err(st, chk)
   ELSE LET r == EnterIsing(st) IN
   IF r.out # "ok" THEN r
-  ELSE Ok([AppendDmm(r.st, wq, cid) EXCEPT !.lg = Append(@, "config_detuning_map")])
+  ELSE Ok([AppendDmm(r.st, mp, wq, cid) EXCEPT !.lg = Append(@, "config_detuning_map")])
 
 (* Sequence.config_slm_mask (not blocked after measurement) *)
 ConfigSlm(st, tg, cid) ==
@@ -905,22 +908,37 @@ AddEomPulse(st, nm, dur, ph, pps, proto, cpd) ==
      THEN Ok([r.st EXCEPT !.empty = FALSE, !.lg = Append(@, "add_eom_pulse")]) ELSE r
 
 -----------------------------------------------------------------------------
+(* target_index / phase_shift_index (call records with idx = TRUE): an index outside the *)
+(* register raises IndexError where an unknown id raises ValueError                      *)
+IdxErr(st, c, r) ==
+  IF "idx" \in DOMAIN c /\ c.idx /\ r.out = "VE" /\ c.tg > AllMask(NQ(st))
+     /\ r.st = st
+     /\ (c.op = "pshift" \/ LET i == ChIdx(st, c.nm) IN
+                            i # 0 /\ CfgOf(st, i).addr = "L" /\ ~InEom(st.ch[i])
+                            /\ (CfgOf(st, i).maxTg = -1
+                                \/ PopCount(c.tg, NQ(st)) + 1 <= CfgOf(st, i).maxTg))
+     /\ (c.op = "target" \/ RefIdx(st, c.basis) # 0)
+  THEN Err(st, "IE")
+  ELSE IF "idx" \in DOMAIN c /\ c.idx /\ r.out = "ok" /\ Len(r.st.lg) = Len(st.lg) + 1
+  THEN [r EXCEPT !.st.lg[Len(r.st.lg)] = IF c.op = "target" THEN "target_index" ELSE "phase_shift_index"]
+  ELSE r
+
 (* Dispatcher: one call of the public API on a sequence that is being built *)
 StepB(st, c) ==
   CASE c.op = "declare"  -> Declare(st, c.nm, c.cid, c.it)
     [] c.op = "getdur"   -> GetDuration(st, c.nm)
-    [] c.op = "target"   -> Target(st, c.nm, c.tg)
+    [] c.op = "target"   -> IdxErr(st, c, Target(st, c.nm, c.tg))
     [] c.op = "delay"    -> Delay(st, c.nm, c.d, c.rest)
     [] c.op = "add"      -> Add(st, c.nm, c.p, c.proto)
     [] c.op = "est"      -> Estimate(st, c.nm, c.p, c.proto)
     [] c.op = "align"    -> Align(st, c.nms, c.rest)
-    [] c.op = "pshift"   -> PhaseShift(st, c.phi, c.tg, c.basis)
+    [] c.op = "pshift"   -> IdxErr(st, c, PhaseShift(st, c.phi, c.tg, c.basis))
     [] c.op = "measure"  -> Measure(st, c.basis)
     [] c.op = "eom_on"   -> EnableEom(st, c.nm, c.sp, c.cpd)
     [] c.op = "eom_off"  -> DisableEom(st, c.nm, c.cpd)
     [] c.op = "eom_mod"  -> ModifyEom(st, c.nm, c.sp, c.cpd)
     [] c.op = "eom_add"  -> AddEomPulse(st, c.nm, c.dur, c.ph, c.pps, c.proto, c.cpd)
-    [] c.op = "detmap"   -> ConfigDetMap(st, c.w2, c.cid)
+    [] c.op = "detmap"   -> ConfigDetMap(st, c.mp, c.w2, c.cid)
     [] c.op = "slm"      -> ConfigSlm(st, c.tg, c.cid)
     [] c.op = "dmm_add"  -> AddDmm(st, c.nm, c.p, c.proto)
     [] c.op = "magfield" -> MagField(st, c.zero)
